@@ -107,7 +107,7 @@ func c06r2(r *R) {
 		fn, key string
 	}
 	allowed := map[site]string{
-		{"(*dialvia.HTTPProxyDialer).DialContextR", "Proxy-Authorization"}:                               "CONNECT request addressed to the upstream proxy",
+		{"(*dialvia.HTTPProxyDialer).DialContextR", "Proxy-Authorization"}:                                 "CONNECT request addressed to the upstream proxy",
 		{"(*forwarder.HTTPProxy).injectKerberosUpstreamProxyAuthorizationHeader$1", "Proxy-Authorization"}: "Kerberos token for the selected upstream proxy",
 		{"(*forwarder.KerberosClient).GetProxyAuthHeader", "Proxy-Authorization"}:                          "Kerberos token for the CONNECT header to the upstream proxy",
 		{"(*forwarder.HTTPProxy).injectKerberosSPNEGOAuthentication$1", "Authorization"}:                   "SPNEGO token for a configured host",
